@@ -2,7 +2,9 @@
  * buffers built with the generated builder for harness/sort_diff.fbs. Line protocol (one reply line per request):
  *
  *   V <kind> <c|f> <sortop> <elems> <queries>
- *       kind   u8 i8 u16 i16 u32 i32 u64 i64 f32 f64 bool e16 str ks ks2 kt kstr mk
+ *       kind   u8 i8 u16 i16 u32 i32 u64 i64 f32 f64 bool e16 str ks ks2 kt kstr mk st1 st2 st3 st5 st6 st10
+ *              (stN: keyed struct of N bytes; elements are the keys, the other members carry the original index redundantly;
+ *               seq is k for st1/st2, k:p for the others with p = 'torn' when the members of one struct disagree)
  *       c|f    compact / full reply (full adds vector position and the buffer before/after as hex)
  *       sortop none | sort | sort_by_<field> | rsort (S_Root_sort)
  *       elems  'n' (field absent) | 'e' (empty) | comma separated elements:
@@ -268,6 +270,55 @@ static int run_ks2(int full, const char *sortop, char *elems, char *qs)
     free_built(&b); return 0;
 }
 
+/* ------------------------------------------------------------------ keyed structs of 1, 2, 3, 5, 6, 10 bytes */
+#define DEF_ST(K, N, FIELD, KT, PARSE, HASPAY, SETPAY, GETPAY) \
+static size_t q_ ## K(const void *v, query_t *q) { N ## _vec_t vec = (N ## _vec_t)v; \
+    if (IS(q->field, "-")) Q_SCALAR(N, , KT, PARSE); \
+    if (IS(q->field, "k")) Q_SCALAR(N, _by_k, KT, PARSE); \
+    return BAD; } \
+static int run_ ## K(int full, const char *sortop, char *elems, char *qs) \
+{ static N ## _t arr[MAXN]; char *t[MAXN]; int n = 0, i, absent = IS(elems, "n"), v0, v1; built_t b; N ## _vec_t vec; size_t off = 0, ch; \
+  if (!absent && !IS(elems, "e")) n = split_on(elems, ',', t, MAXN); \
+  memset(arr, 0, sizeof(arr[0]) * (size_t)n); \
+  for (i = 0; i < n; ++i) { N ## _t *e = &arr[i]; unsigned long long ix = (unsigned long long)i; e->k = (KT)PARSE(t[i]); (void)ix; SETPAY; } \
+  begin_build(); if (!absent) S_Root_ ## FIELD ## _create_pe(B, arr, (size_t)n); \
+  if (end_build(&b, 1)) { printf("BUILDFAIL"); return 0; } \
+  vec = S_Root_ ## FIELD(b.root); \
+  v0 = S_Root_verify_as_root(b.buf, b.size); \
+  if (IS(sortop, "sort")) N ## _vec_sort((N ## _mutable_vec_t)vec); \
+  else if (IS(sortop, "sort_by_k")) N ## _vec_sort_by_k((N ## _mutable_vec_t)vec); \
+  else if (IS(sortop, "rsort")) S_Root_sort((S_Root_mutable_table_t)b.root); \
+  else if (!IS(sortop, "none")) { printf("BADOP"); free_built(&b); return 0; } \
+  v1 = S_Root_verify_as_root(b.buf, b.size); \
+  if (vec) off = (size_t)((const uint8_t *)vec - b.buf); \
+  ch = outside_changed(&b, off, (size_t)n * sizeof(N ## _t)); \
+  printf("OK %d %d %llu ", v0, v1, (unsigned long long)ch); \
+  if (N ## _vec_len(vec) == 0) printf("e"); \
+  for (i = 0; i < (int)N ## _vec_len(vec); ++i) { N ## _struct_t e = N ## _vec_at(vec, (size_t)i); long long pay = -1; \
+      printf("%s%lld", i ? "," : "", (long long)N ## _k(e)); \
+      if (HASPAY) { GETPAY; if (pay < 0) printf(":torn"); else printf(":%lld", pay); } } \
+  printf(" - - "); run_queries(qs, q_ ## K, vec); print_tail(&b, full, off, sizeof(N ## _t)); \
+  free_built(&b); return 0; }
+
+DEF_ST(st1, S_S1, v_s1, uint8_t, p_u, 0, (void)0, (void)0)
+DEF_ST(st2, S_S2, v_s2, int16_t, p_i, 0, (void)0, (void)0)
+DEF_ST(st3, S_S3, v_s3, uint8_t, p_u, 1,
+       (e->a = (uint8_t)(ix & 0xff), e->b = (uint8_t)((ix >> 8) ^ 0xa5)),
+       pay = (long long)S_S3_a(e) | ((long long)(S_S3_b(e) ^ 0xa5) << 8))
+DEF_ST(st5, S_S5, v_s5, uint8_t, p_u, 1,
+       (e->a = (uint8_t)(ix & 0xff), e->b = (uint8_t)(ix >> 8), e->c = (uint8_t)((ix & 0xff) ^ 0x3c), e->d = (uint8_t)((ix & 0xff) ^ 0xc3)),
+       if ((S_S5_c(e) ^ 0x3c) == S_S5_a(e) && (S_S5_d(e) ^ 0xc3) == S_S5_a(e)) pay = (long long)S_S5_a(e) | ((long long)S_S5_b(e) << 8))
+DEF_ST(st6, S_S6, v_s6, int16_t, p_i, 1,
+       (e->a = (uint16_t)(ix & 0xffff), e->b = (uint16_t)((ix & 0xffff) ^ 0x5a5a)),
+       if ((S_S6_b(e) ^ 0x5a5a) == S_S6_a(e)) pay = (long long)S_S6_a(e))
+#define ST10_BYTE(ix, j) ((uint8_t)((((ix) >> (8 * ((j) & 1))) & 0xff) ^ (0x11 * (j))))
+static void st10_set(S_S10_t *e, unsigned long long ix) { int j; for (j = 0; j < 8; ++j) e->p[j] = ST10_BYTE(ix, j); }
+static long long st10_get(S_S10_struct_t e)
+{ unsigned long long ix = (unsigned long long)S_S10_p(e, 0) | ((unsigned long long)(S_S10_p(e, 1) ^ 0x11) << 8); int j;
+  for (j = 0; j < 8; ++j) if (S_S10_p(e, (size_t)j) != ST10_BYTE(ix, j)) return -1;
+  return (long long)ix; }
+DEF_ST(st10, S_S10, v_s10, int16_t, p_i, 1, st10_set(e, ix), pay = st10_get(e))
+
 /* ------------------------------------------------------------------ offset vectors */
 static size_t q_str(const void *v, query_t *q) { flatbuffers_string_vec_t vec = (flatbuffers_string_vec_t)v;
     if (!IS(q->field, "-")) return BAD; Q_STRING(flatbuffers_string, ); }
@@ -493,6 +544,12 @@ int main(void)
             else if (IS(k, "e16")) run_e16(full, tok[3], tok[4], tok[5]);
             else if (IS(k, "ks")) run_ks(full, tok[3], tok[4], tok[5]);
             else if (IS(k, "ks2")) run_ks2(full, tok[3], tok[4], tok[5]);
+            else if (IS(k, "st1")) run_st1(full, tok[3], tok[4], tok[5]);
+            else if (IS(k, "st2")) run_st2(full, tok[3], tok[4], tok[5]);
+            else if (IS(k, "st3")) run_st3(full, tok[3], tok[4], tok[5]);
+            else if (IS(k, "st5")) run_st5(full, tok[3], tok[4], tok[5]);
+            else if (IS(k, "st6")) run_st6(full, tok[3], tok[4], tok[5]);
+            else if (IS(k, "st10")) run_st10(full, tok[3], tok[4], tok[5]);
             else if (IS(k, "str")) run_offs(K_STR, full, tok[3], tok[4], tok[5]);
             else if (IS(k, "kt")) run_offs(K_KT, full, tok[3], tok[4], tok[5]);
             else if (IS(k, "kstr")) run_offs(K_KSTR, full, tok[3], tok[4], tok[5]);
